@@ -316,6 +316,7 @@ Definition chk_C06 (w : sworld) (e : event) : bool :=
 Definition chk_C07 (quit : option nat) (w : sworld) (e : event) : bool :=
   match sw_follow w with
   | None => true
+  | Some (FQuitBack _) => true         (* the quit dialog's own nested loop is running *)
   | Some f =>
     let is_end := match e with EHandlerEnd _ _ _ => true | _ => false end in
     let is_exit := match e with EHandlerEnd _ _ (Some XExit) => true | _ => false end in
